@@ -15,9 +15,12 @@ for d in sorted(glob.glob('/verif/seeded/*/meta.json')):
             out.append('%s %s: %s%s' % (p, r.get('tier', ''), v, (' (' + k + ')') if k and v == 'caught' else ''))
         return '; '.join(out)
     note = m.get('assessment', '')
+    blind = m.get('blind_evaluation')
+    if blind:
+        first = {k: v for k, v in blind.items() if isinstance(v, dict)}
     rows.append('| %s | %s | %s | %s | %s | %s |' % (i, m['property'], ', '.join(m['files_changed']), m['needs_to_manifest'].replace('|', '/')[:260],
                 fmt(first) if first else '-', fmt(ev) + ((' — ' + note.split('.')[0]) if note else '')))
-tab = ['| id | property | file | needs to manifest | first evaluation | current checks |', '|---|---|---|---|---|---|'] + rows
+tab = ['| id | property | file | needs to manifest | first (blind) evaluation | current checks |', '|---|---|---|---|---|---|'] + rows
 s = open('/verif/DESIGN.md').read()
 s = re.sub(r'<!-- SEEDED-BEGIN -->.*<!-- SEEDED-END -->', '<!-- SEEDED-BEGIN -->\n' + '\n'.join(tab) + '\n<!-- SEEDED-END -->', s, flags=re.S)
 open('/verif/DESIGN.md', 'w').write(s)
